@@ -281,40 +281,63 @@ def sgDtypeOk (d : Dtype) : Bool := d.isInteger || d = .f32 || d = .f64
 def sgColOk (c : Col) : Bool :=
   sgDtypeOk c.dtype && !c.varlen && c.rows.all (fun r => r.1.length ≤ 1)
 
+/-- the leaf of a scalar row (`.unmodelled` for a vector-valued axis column: `np.stack` would give
+a rank-3 position; `ValueError` for a column shorter than the node list) -/
+def scalarAt (i : Nat) (c : Col) : Except Err Val :=
+  match c.rows[i]? with
+  | some ([], [v]) => .ok v
+  | some _ => .error (.unmodelled "non-scalar axis column")
+  | none => .error .valueError
+
 /-- `np.stack([cols…], axis=1)` of scalar columns of one dtype -/
 def stackCols (n : Nat) (cols : List Col) : Except Err (List (List Val)) :=
-  mapE (fun i => mapE (fun (c : Col) =>
-    match c.rows[i]? with
-    | some ([], [v]) => .ok v
-    | some _ => .error (.unmodelled "non-scalar axis column")
-    | none => .error .valueError) cols) (List.range n)
+  mapE (fun i => mapE (scalarAt i) cols) (List.range n)
+
+/-- `metadata.axes` names; without axes only an empty graph can be constructed (`ValueError`) -/
+def axisNamesOf (m : MemGeff) (axes : Option (List String)) : Except Err (List String) :=
+  match axes with
+  | none => if m.nodeIds.isEmpty then .ok [] else .error .valueError
+  | some [] => if m.nodeIds.isEmpty then .ok [] else .error .valueError
+  | some (a :: t) => .ok (a :: t)
+
+/-- `node_attrs[name]` for an axis name (`KeyError` when it is no node property) -/
+def axisCol (props : List (String × Col)) (a : String) : Except Err Col :=
+  match props.lookup a with
+  | some c => .ok c
+  | none => .error .keyError
+
+/-- dtype of the stacked `position`: the axes' common dtype; different dtypes are promoted by
+numpy, which the model does not cover (known finding `C03:sg-mixed-axis-dtypes`) -/
+def posDtypeOf (cols : List Col) : Except Err Dtype :=
+  match cols with
+  | [] => .error (.unmodelled "np.stack of nothing")
+  | c :: cs =>
+    if cs.all (fun c' => c'.dtype = c.dtype) ∧ sgDtypeOk c.dtype then .ok c.dtype
+    else .error (.unmodelled "axes of different dtypes are promoted")
 
 /-- `SgBackend.construct` (`axes = metadata.axes` names; `none` / `[]` = no axes) -/
-def sgConstruct (m : MemGeff) (axes : Option (List String)) : Except Err SgGraph := do
-  let axes := match axes with
-    | some [] => none
-    | a => a
-  let names ← match axes with
-    | none => if m.nodeIds.isEmpty then pure [] else throw Err.valueError
-    | some a => pure a
-  -- every axis must be a node property
-  let cols ← mapE (fun a => match m.nodeProps.lookup a with
-    | some c => .ok c
-    | none => .error Err.keyError) names
-  let rest := m.nodeProps.filter (fun p => !names.contains p.1)
-  if !(rest.all (fun p => sgColOk p.2) && m.edgeProps.all (fun p => sgColOk p.2)) then
-    throw (Err.unmodelled "non-numeric or var-length attribute")
-  if m.nodeIds.isEmpty then
-    return { directed := m.directed, ndims := 1, posDtype := .f64, nodes := [], position := [],
-             nodeAttrs := rest, edges := [], edgeAttrs := m.edgeProps }
-  else do
-    let pd ← match cols with
-      | [] => throw (Err.unmodelled "np.stack of nothing")
-      | c :: cs => if cs.all (fun c' => c'.dtype = c.dtype) ∧ sgDtypeOk c.dtype then pure c.dtype
-                   else throw (Err.unmodelled "axes of different dtypes are promoted")
-    let pos ← stackCols m.nodeIds.length cols
-    return { directed := m.directed, ndims := names.length, posDtype := pd, nodes := m.nodeIds,
-             position := pos, nodeAttrs := rest, edges := m.edgeIds, edgeAttrs := m.edgeProps }
+def sgConstruct (m : MemGeff) (axes : Option (List String)) : Except Err SgGraph :=
+  match axisNamesOf m axes with
+  | .error e => .error e
+  | .ok names =>
+    match mapE (axisCol m.nodeProps) names with
+    | .error e => .error e
+    | .ok cols =>
+      let rest := m.nodeProps.filter (fun p => !names.contains p.1)
+      if !(rest.all (fun p => sgColOk p.2) && m.edgeProps.all (fun p => sgColOk p.2)) then
+        .error (.unmodelled "non-numeric or var-length attribute")
+      else if m.nodeIds.isEmpty then
+        .ok { directed := m.directed, ndims := 1, posDtype := .f64, nodes := [], position := [],
+              nodeAttrs := rest, edges := [], edgeAttrs := m.edgeProps }
+      else
+        match posDtypeOf cols with
+        | .error e => .error e
+        | .ok pd =>
+          match stackCols m.nodeIds.length cols with
+          | .error e => .error e
+          | .ok pos =>
+            .ok { directed := m.directed, ndims := names.length, posDtype := pd, nodes := m.nodeIds,
+                  position := pos, nodeAttrs := rest, edges := m.edgeIds, edgeAttrs := m.edgeProps }
 
 /-- `SgBackend.write` + the unsquish of `write_props_arrays`: the in-memory geff handed to the store -/
 def sgWrite (g : SgGraph) (axisNames : List String) : Except Err MemGeff := do
@@ -331,12 +354,13 @@ def sgWrite (g : SgGraph) (axisNames : List String) : Except Err MemGeff := do
   return { directed := g.directed, nodeIds := g.nodes, edgeIds := g.edges,
            nodeProps := others ++ axisCols, edgeProps := g.edgeAttrs }
 
-/-- `SgGraphAdapter.get_node_prop`: an axis name indexes `position`, anything else the attribute -/
+/-- `SgGraphAdapter.get_node_prop`: an axis name indexes `position`, anything else the attribute
+(`has_node_prop` is always true: spatial-graph has no missing values) -/
 def SgGraph.nodeAttr (g : SgGraph) (axes : List String) (i : Int) (name : String) : Option PyVal :=
-  match g.nodes.idxOf? i with
+  match g.nodes.findIdx? (fun x => x = i) with
   | none => none
   | some k =>
-    match axes.idxOf? name with
+    match axes.findIdx? (fun x => x = name) with
     | some a => match g.position[k]? with
       | some r => (r[a]?).map PyVal.sc
       | none => none
@@ -345,10 +369,13 @@ def SgGraph.nodeAttr (g : SgGraph) (axes : List String) (i : Int) (name : String
       | none => none
 
 def SgGraph.edgeAttr (g : SgGraph) (e : Int × Int) (name : String) : Option PyVal :=
-  match g.edges.findIdx? (fun x => x = e || (!g.directed && x = (e.2, e.1))) with
+  match g.edges.findIdx? (fun x => sameEdge g.directed x e) with
   | none => none
   | some k => match g.edgeAttrs.lookup name with
     | some c => (c.rows[k]?).map (rowToPy false)
     | none => none
+
+def SgGraph.hasNode (g : SgGraph) (i : Int) : Bool := g.nodes.any (fun x => x = i)
+def SgGraph.hasEdge (g : SgGraph) (e : Int × Int) : Bool := g.edges.any (fun x => sameEdge g.directed x e)
 
 end Geff.Backends
